@@ -15,6 +15,7 @@ GenericLoop: a ``for v in range(n)`` with symbolic ``n`` is executed ONCE with
     body) become  x_before + SUM_{v in range} e(v).
 """
 import ast
+from fractions import Fraction
 import z3
 
 from .poly import P, normal
@@ -176,6 +177,19 @@ class InArray(object):
     def __init__(self, name, shape=None):
         self.name = name
         self.shape = shape
+
+    def __mul__(self, k):
+        from .pysym import Opaque, _unwrap0
+        k = _unwrap0(k)
+        if isinstance(k, (int, float, Fraction)) and not isinstance(k, bool):
+            k = P.const(k)
+        if not isinstance(k, P):
+            return NotImplemented
+        if k.is_zero():
+            return P.const(0)            # 0 * vector: the null vector (accumulators start from the scalar 0 in the package)
+        return Opaque('scaled-vector', k=k, of=self.name)
+
+    __rmul__ = __mul__
 
     def as_contiguous(self):
         """np.ascontiguousarray / a copy: same values, C-contiguous"""
